@@ -296,6 +296,41 @@ func (r *Roles) FamilyOfFunc(fn *ssa.Function) *Family {
 			if fam != nil {
 				return fam
 			}
+			// a free helper of the store package all of whose (static) callers belong to one family (a piece split out
+			// of that family's methods); the shared ingest and collector are called from both families and stay shared
+			if r.P != nil && f == fn {
+				var only *Family
+				ok := true
+				sites := r.P.Callers(f)
+				for _, site := range sites {
+					pf := site.Parent()
+					if pf == nil || pf == f || site.Common().StaticCallee() != f {
+						ok = false
+						break
+					}
+					cf := r.familyNoCallers(pf)
+					if cf == nil || (only != nil && only != cf) {
+						ok = false
+						break
+					}
+					only = cf
+				}
+				if ok && only != nil && len(sites) > 0 {
+					return only
+				}
+			}
+		}
+	}
+	return nil
+}
+
+// familyNoCallers: FamilyOfFunc without the caller-based fallback (no recursion through the call graph).
+func (r *Roles) familyNoCallers(fn *ssa.Function) *Family {
+	for f := fn; f != nil; f = f.Parent() {
+		if f.Signature.Recv() != nil {
+			if fam := r.FamilyOfType(f.Signature.Recv().Type()); fam != nil {
+				return fam
+			}
 		}
 	}
 	return nil
